@@ -2,7 +2,7 @@
 //! several processes exercising keygen / sign / verify; light events with per-thread sequence numbers.
 use crate::common::*;
 use crate::variant::*;
-use rand::{Rng, RngCore};
+use rand::Rng;
 use serde_json::{json, Value};
 use std::path::PathBuf;
 use std::sync::Arc;
